@@ -327,6 +327,14 @@ func (rw *responseWriter) Write(b []byte) (int, error) {
 }
 
 func (rw *responseWriter) WriteHeader(statusCode int) {
+	// An upstream response without a Content-Type is passed on without one.
+	// Go's http server would otherwise sniff the body and make one up. A key
+	// with a nil value tells it not to and is not written to the client.
+	if h := rw.w.Header(); statusCode >= 200 {
+		if _, ok := h["Content-Type"]; !ok {
+			h["Content-Type"] = nil
+		}
+	}
 	rw.w.WriteHeader(statusCode)
 	rw.code = statusCode
 }
